@@ -83,7 +83,7 @@ Definition snap_ok (c : gcls) (m : member) (s : snap) : bool :=
 
 (* one case: a history on an initially empty group.  1 = agree *)
 Definition check_case (c : gcls) (e : env) (ops : list op) (impl : list res) (final : list snap) : bool :=
-  let (g, rs) := run c e [] ops in
+  let (g, rs) := run_shared c e [] ops in      (* = run on histories of distinct observers: Proofs/C15_Shared.v *)
   forallb2 res_eqb rs impl && forallb2 (snap_ok c) g final.
 
 (* diagnostics printed by a failing case file: index of the first differing result, or -1 when
@@ -95,7 +95,7 @@ Fixpoint first_diff (i : Z) (rs impl : list res) : Z :=
   | _, _ => i
   end.
 Definition diff_at (c : gcls) (e : env) (ops : list op) (impl : list res) : Z :=
-  first_diff 0 (snd (run c e [] ops)) impl.
+  first_diff 0 (snd (run_shared c e [] ops)) impl.
 
 (* ---- Gen tie lemmas --------------------------------------------------------------------- *)
 Definition kinds_eqb (a b : list kind) : bool := forallb2 kind_eqb a b.
@@ -180,7 +180,7 @@ Definition methods_agree (x : list (string * list (string * mshape))) : bool :=
 Fixpoint states (c : gcls) (e : env) (g : group) (ops : list op) : list group :=
   match ops with
   | [] => []
-  | o :: t => let g1 := fst (step c e g o) in g1 :: states c e g1 t
+  | o :: t => let g1 := fst (step_shared c e g o) in g1 :: states c e g1 t
   end.
 
 Definition check_points (c : gcls) (sts : list group) (cps : list (nat * list snap)) : bool :=
@@ -192,3 +192,8 @@ Definition check_points (c : gcls) (sts : list group) (cps : list (nat * list sn
 Definition check_case_cp (c : gcls) (e : env) (ops : list op) (impl : list res) (final : list snap)
            (cps : list (nat * list snap)) : bool :=
   check_case c e ops impl final && check_points c (states c e [] ops) cps.
+
+(* slit checkpoints of a BolometerCamera history: (operation index, camera.slits as identities) *)
+Definition check_slits (c : gcls) (e : env) (ops : list op) (cps : list (nat * list Z)) : bool :=
+  let sts := slits_states c e [] ops in
+  forallb (fun cp => match nth_error sts (fst cp) with Some sl => zlist_eqb sl (snd cp) | None => false end) cps.
